@@ -169,9 +169,14 @@ TWIN = ["Twin_Obs", "Twin_Exact", "Twin_Blame"]
 
 TWIN_EQ = ["Twin_Obs", "Twin_Equiv", "Twin_Blame"]
 
+INTERHUNK = [{"gitconfig": {"diff.interHunkContext": "5", "diff.context": "3"}}]
 PLANS["C12"] = {
     "clauses": TWIN_EQ,
     "quick": [
+        dict(name="interhunk", consts=consts(alphabet=("edit_ins", "ckpt", "add_lines", "add_hunk", "commit_staged",
+                                                       "commit_all"), steps=6, commits=3, uid=5, lines=5,
+                                             sessions=("S1",)), invariants=[], budget=160,
+             variants=[("plain", "plain")], twins=INTERHUNK, per_tag=1),
         dict(name="commit", consts=consts(files=("f", "g"), alphabet=PARTIAL, steps=5, commits=3, uid=4, lines=3),
              invariants=[], budget=120, variants=[("plain", "unicode"), ("plain", "spaces"), ("crlf", "subdir")],
              twins=GITCFG_TWINS),
@@ -213,9 +218,12 @@ PLANS["C13"] = {
              budget=800, variants=RENDERS, twins=HOOKSMODE, timeout=2400),
     ],
 }
+PICKMANY = ("edit_ins", "ckpt", "commit_all", "branch", "switch", "cherry_many")
 PLANS["C15"] = {
     "clauses": TWIN,
     "quick": [
+        dict(name="pickmany", consts=consts(alphabet=PICKMANY, steps=11, commits=7, uid=5, lines=5, sessions=("S1",)),
+             invariants=[], budget=140, variants=RENDERS[:2], twins=NOFAST, per_tag=1),
         dict(name="interactive", consts=consts(files=("f", "g"), alphabet=IREBASE, steps=9, commits=8, uid=5, lines=4,
                                                sessions=("S1",)), invariants=[], budget=160, variants=RENDERS[:2],
              twins=NOFAST, per_tag=1),
@@ -263,8 +271,11 @@ PLANS["C09"] = {
         dict(name="blame", consts=consts(files=("f", "g"), alphabet=("edit_ins", "edit_del", "edit_mod", "ckpt",
                                                                      "commit_all", "mv"),
                                          steps=7, commits=4, uid=4, lines=4, sessions=("S1",)), invariants=[],
-             budget=200, variants=[("plain", "plain"), ("plain", "spaces"), ("crlf", "unicode")], per_tag=1,
+             budget=140, variants=[("plain", "plain"), ("plain", "spaces"), ("crlf", "unicode")], per_tag=1,
              extra={"blamefmt": True}),
+        dict(name="blocks", consts=consts(alphabet=("edit_ins", "edit_del", "ckpt", "commit_all"),
+                                          steps=7, commits=4, uid=5, lines=5, sessions=("S1",)), invariants=[],
+             budget=240, variants=[("plain", "plain"), ("tabs", "dashy")], per_tag=2, extra={"blamefmt": True}),
         dict(name="rewrite", consts=consts(alphabet=REWRITE + ("amend",), steps=9, commits=7, uid=5, lines=5,
                                            sessions=("S1",)), invariants=[], budget=100,
              variants=[("plain", "plain"), ("plain", "quoted")], per_tag=1, extra={"blamefmt": True}),
